@@ -87,100 +87,148 @@ def policyMed : MedAct → Nat
   | .set v => clamp32 v
   | .mod d => clamp32 d
 
+/-! ### the clauses, one per sentence of the statement; each says when an advertisement
+    `(nh, out)` of case `c` is *bad* -/
+
+def polNh (c : ExportCase) : Bool := match c.sess.policy with | some p => p.nh.isSome | none => false
+def polMed (c : ExportCase) : Option MedAct := match c.sess.policy with | some p => p.med | none => none
+def visibleAs (c : ExportCase) : Nat :=
+  if c.sess.ctx.confedId ≠ 0 then c.sess.ctx.confedId else c.sess.ctx.localAsn
+def stripped (c : ExportCase) : List Seg := (pathOf c.path.attrs).filter (fun sg => !isConfedSeg sg)
+def reflected (c : ExportCase) : Bool :=
+  isPeer c.path.src && isIbgpRole c.path.src.role && isIbgpRole c.sess.ctx.role
+
+/-- "never advertised back to the peer it was learned from" -/
+def badEcho (c : ExportCase) : Bool := isPeer c.path.src && c.path.src.addr = c.sess.remoteAddr
+
+/-- "never from one non-client iBGP peer to another" -/
+def badNonClient (c : ExportCase) : Bool :=
+  isPeer c.path.src && c.path.src.role = .ibgp && c.sess.ctx.role = .ibgp
+
+/-- "never across the route-server/non-route-server boundary" -/
+def badRsBoundary (c : ExportCase) : Bool :=
+  isPeer c.path.src && ((c.path.src.role = .rsClient) != (c.sess.ctx.role = .rsClient))
+
+/-- eBGP: "local AS (confederation id if configured) prepended exactly once after removing
+    confederation segments" -/
+def badEbgpPath (c : ExportCase) (out : Attrs) : Bool :=
+  c.sess.ctx.role = .ebgp &&
+    !((withCode 2 out).length = 1 && prependedOnce 2 (visibleAs c) (stripped c) (pathOf out))
+
+/-- eBGP: "LOCAL_PREF/ORIGINATOR_ID/CLUSTER_LIST/AIGP ... are removed" -/
+def badEbgpInternal (c : ExportCase) (out : Attrs) : Bool :=
+  c.sess.ctx.role = .ebgp && (present 5 out || present 9 out || present 10 out || present 26 out)
+
+/-- eBGP: "and a received MED [is] removed" (an export-policy MED action may set one afresh) -/
+def badEbgpMed (c : ExportCase) (out : Attrs) : Bool :=
+  c.sess.ctx.role = .ebgp && isPeer c.path.src && (match polMed c with
+    | none => present 4 out
+    | some act => present 4 out && valueOf 4 out != some (policyMed act))
+
+/-- eBGP: "the next hop is self" (except export-policy next-hop actions, locally injected explicit
+    next hops, and families that carry no next hop) -/
+def badEbgpNexthop (c : ExportCase) (nh : Option Nh) : Bool :=
+  c.sess.ctx.role = .ebgp && !polNh c &&
+    !(c.path.src.kind = .locl && (match c.path.nh with | some n => !unspecified (nhAddr n) | none => false)) &&
+    !(c.sess.fam.isFlowspec && c.path.nh.isNone) &&
+    (match nh with | some n => nhAddr n != c.sess.ctx.localAddr | none => true)
+
+/-- iBGP: "LOCAL_PREF is always present" -/
+def badIbgpLocalPref (c : ExportCase) (out : Attrs) : Bool :=
+  isIbgpRole c.sess.ctx.role && !present 5 out
+
+/-- iBGP: "the path ... untouched" -/
+def badIbgpPath (c : ExportCase) (out : Attrs) : Bool :=
+  isIbgpRole c.sess.ctx.role && withCode 2 out != withCode 2 c.path.attrs
+
+/-- iBGP: "... and next hop are untouched" -/
+def badIbgpNexthop (c : ExportCase) (nh : Option Nh) : Bool :=
+  isIbgpRole c.sess.ctx.role && !polNh c &&
+    (match c.path.nh with
+     | some n => !(c.path.src.kind = .locl && unspecified (nhAddr n)) && nh != some n
+     | none => false)
+
+/-- "reflected routes gain ORIGINATOR_ID ..." -/
+def badReflectOriginator (c : ExportCase) (out : Attrs) : Bool := reflected c && !present 9 out
+
+/-- "... and the cluster-id" -/
+def badReflectCluster (c : ExportCase) (out : Attrs) : Bool :=
+  reflected c && (match c.sess.cluster with
+    | none => true
+    | some cid => !(wordsOf 10 out).contains cid)
+
+/-- "confed-eBGP peers get the member AS in a confed segment" -/
+def badConfedPath (c : ExportCase) (out : Attrs) : Bool :=
+  c.sess.ctx.role = .confed &&
+    !((withCode 2 out).length = 1 &&
+      prependedOnce 3 c.sess.ctx.localAsn (pathOf c.path.attrs) (pathOf out))
+
+/-- "LLGR-stale routes carry LLGR_STALE" -/
+def badLlgr (c : ExportCase) (out : Attrs) : Bool :=
+  c.path.src.llgr && !(wordsOf 8 out).contains 4294901766
+
+/-- "unknown transitive attributes are forwarded with Partial set" -/
+def badOpaqueTransitive (c : ExportCase) (out : Attrs) : Bool :=
+  c.path.attrs.any (fun a => match a with
+    | .opq code f bs => f / 64 % 2 = 1 &&
+        !out.any (fun b => match b with
+          | .opq code' f' bs' => code' = code && bs' = bs && f' / 32 % 2 = 1 && f' / 64 % 2 = 1 &&
+                                (f' = f || f' = f + 32)
+          | _ => false)
+    | _ => false)
+
+/-- "and unknown non-transitive ones dropped" -/
+def badOpaqueNonTransitive (out : Attrs) : Bool :=
+  out.any (fun b => match b with
+    | .opq _ f _ => f / 64 % 2 = 0
+    | _ => false)
+
 def checkExport (c : ExportCase) (o : Obs) : Verdict :=
   if !wfExport c then .ok else
   match o with
   | .other => .fail "malformed-observation"
   | .suppressed => .ok
   | .reach _ nh out =>
-    let src := c.path.src
-    let s := c.sess
-    let r := s.ctx.role
-    let inp := c.path.attrs
-    let polNh := match s.policy with | some p => p.nh.isSome | none => false
-    let polMed : Option MedAct := match s.policy with | some p => p.med | none => none
-    let visibleAs := if s.ctx.confedId ≠ 0 then s.ctx.confedId else s.ctx.localAsn
-    let stripped := (pathOf inp).filter (fun sg => !isConfedSeg sg)
-    let reflected := isPeer src && isIbgpRole src.role && isIbgpRole r
     firstFail [
-      -- "never advertised back to the peer it was learned from"
-      (isPeer src && src.addr = s.remoteAddr, "advertised-back-to-source-peer"),
-      -- "never from one non-client iBGP peer to another"
-      (isPeer src && src.role = .ibgp && r = .ibgp, "nonclient-ibgp-to-nonclient-ibgp"),
-      -- "never across the route-server/non-route-server boundary"
-      (isPeer src && ((src.role = .rsClient) != (r = .rsClient)), "crossed-route-server-boundary"),
-      -- eBGP: "local AS (confederation id if configured) prepended exactly once after removing
-      --        confederation segments"
-      (r = .ebgp && !((withCode 2 out).length = 1 && prependedOnce 2 visibleAs stripped (pathOf out)),
-        "ebgp-aspath-not-prepended-once-after-strip"),
-      -- eBGP: "LOCAL_PREF/ORIGINATOR_ID/CLUSTER_LIST/AIGP ... are removed"
-      (r = .ebgp && (present 5 out || present 9 out || present 10 out || present 26 out),
-        "ebgp-internal-attribute-sent"),
-      -- eBGP: "and a received MED [is] removed" (an export-policy MED action may set one afresh)
-      (r = .ebgp && isPeer src && (match polMed with
-          | none => present 4 out
-          | some act => present 4 out && valueOf 4 out != some (policyMed act)),
-        "ebgp-received-med-sent"),
-      -- eBGP: "the next hop is self" (except export-policy next-hop actions, locally injected explicit
-      --        next hops, and families that carry no next hop)
-      (r = .ebgp && !polNh &&
-        !(src.kind = .locl && (match c.path.nh with | some n => !unspecified (nhAddr n) | none => false)) &&
-        !(s.fam.isFlowspec && c.path.nh.isNone) &&
-        (match nh with | some n => nhAddr n != s.ctx.localAddr | none => true),
-        "ebgp-nexthop-not-self"),
-      -- iBGP: "LOCAL_PREF is always present"
-      (isIbgpRole r && !present 5 out, "ibgp-local-pref-missing"),
-      -- iBGP: "the path ... untouched"
-      (isIbgpRole r && withCode 2 out != withCode 2 inp, "ibgp-aspath-changed"),
-      -- iBGP: "... and next hop are untouched"
-      (isIbgpRole r && !polNh &&
-        (match c.path.nh with
-         | some n => !(src.kind = .locl && unspecified (nhAddr n)) && nh != some n
-         | none => false),
-        "ibgp-nexthop-changed"),
-      -- "reflected routes gain ORIGINATOR_ID and the cluster-id"
-      (reflected && !present 9 out, "reflected-without-originator-id"),
-      (reflected && (match s.cluster with
-          | none => true
-          | some cid => !(wordsOf 10 out).contains cid),
-        "reflected-without-cluster-id"),
-      -- "confed-eBGP peers get the member AS in a confed segment"
-      (r = .confed && !((withCode 2 out).length = 1 && prependedOnce 3 s.ctx.localAsn (pathOf inp) (pathOf out)),
-        "confed-member-as-not-in-confed-sequence"),
-      -- "LLGR-stale routes carry LLGR_STALE"
-      (src.llgr && !(wordsOf 8 out).contains 4294901766, "llgr-stale-community-missing"),
-      -- "unknown transitive attributes are forwarded with Partial set"
-      (inp.any (fun a => match a with
-          | .opq code f bs => f / 64 % 2 = 1 &&
-              !out.any (fun b => match b with
-                | .opq code' f' bs' => code' = code && bs' = bs && f' / 32 % 2 = 1 && f' / 64 % 2 = 1 &&
-                                      (f' = f || f' = f + 32)
-                | _ => false)
-          | _ => false),
-        "unknown-transitive-not-forwarded-with-partial"),
-      -- "and unknown non-transitive ones dropped"
-      (out.any (fun b => match b with
-          | .opq _ f _ => f / 64 % 2 = 0
-          | _ => false),
-        "unknown-nontransitive-forwarded")
+      (badEcho c, "advertised-back-to-source-peer"),
+      (badNonClient c, "nonclient-ibgp-to-nonclient-ibgp"),
+      (badRsBoundary c, "crossed-route-server-boundary"),
+      (badEbgpPath c out, "ebgp-aspath-not-prepended-once-after-strip"),
+      (badEbgpInternal c out, "ebgp-internal-attribute-sent"),
+      (badEbgpMed c out, "ebgp-received-med-sent"),
+      (badEbgpNexthop c nh, "ebgp-nexthop-not-self"),
+      (badIbgpLocalPref c out, "ibgp-local-pref-missing"),
+      (badIbgpPath c out, "ibgp-aspath-changed"),
+      (badIbgpNexthop c nh, "ibgp-nexthop-changed"),
+      (badReflectOriginator c out, "reflected-without-originator-id"),
+      (badReflectCluster c out, "reflected-without-cluster-id"),
+      (badConfedPath c out, "confed-member-as-not-in-confed-sequence"),
+      (badLlgr c out, "llgr-stale-community-missing"),
+      (badOpaqueTransitive c out, "unknown-transitive-not-forwarded-with-partial"),
+      (badOpaqueNonTransitive out, "unknown-nontransitive-forwarded")
     ]
+
+/-- "a route whose AS_PATH contains the local AS (or confederation id) ... is never installed" -/
+def rxAsLoop (c : RxCase) : Bool :=
+  let asns := (pathOf c.attrs).flatMap (·.2)
+  asns.contains c.localAsn || (c.confedId ≠ 0 && asns.contains c.confedId)
+
+/-- "whose ORIGINATOR_ID is the local router-id" -/
+def rxOriginatorLoop (c : RxCase) : Bool := valueOf 9 c.attrs = some c.routerId
+
+/-- "or whose CLUSTER_LIST contains the local cluster-id" -/
+def rxClusterLoop (c : RxCase) : Bool :=
+  match c.cluster with
+  | some cid => (wordsOf 10 c.attrs).contains cid
+  | none => false
 
 /-- an inbound UPDATE announcing one prefix: `installed` = the prefix is in the RIB afterwards -/
 def checkRx (c : RxCase) (installed : Bool) : Verdict :=
   if !(codesDistinct c.attrs && c.attrs.all Attr.wf) then .ok else
-  let path := pathOf c.attrs
-  let asns := path.flatMap (·.2)
   firstFail [
-    -- "a route whose AS_PATH contains the local AS (or confederation id) ... is never installed"
-    (installed && (asns.contains c.localAsn || (c.confedId ≠ 0 && asns.contains c.confedId)),
-      "as-loop-route-installed"),
-    -- "whose ORIGINATOR_ID is the local router-id"
-    (installed && valueOf 9 c.attrs = some c.routerId, "originator-loop-route-installed"),
-    -- "or whose CLUSTER_LIST contains the local cluster-id"
-    (installed && (match c.cluster with
-        | some cid => (wordsOf 10 c.attrs).contains cid
-        | none => false),
-      "cluster-loop-route-installed")
+    (installed && rxAsLoop c, "as-loop-route-installed"),
+    (installed && rxOriginatorLoop c, "originator-loop-route-installed"),
+    (installed && rxClusterLoop c, "cluster-loop-route-installed")
   ]
 
 end Rbgp.Export.Spec
